@@ -218,6 +218,11 @@ func runC08(w *World, tier string) (bool, interface{}) {
 		op.Filter = func(o *types.Operation) bool { return o.DKGIdentifier != "" }
 	}
 	// junk and duplicates on the board
+	lookAlike := map[string]bool{}
+	for _, op := range c.Ops {
+		prev := op.Filter
+		op.Filter = func(o *types.Operation) bool { return !lookAlike[o.DKGIdentifier] && (prev == nil || prev(o)) }
+	}
 	var roundsSeen []string
 	cnt := 0
 	w.Board.PreAppend = append(w.Board.PreAppend, func(m storage.Message, by int) {
@@ -225,7 +230,31 @@ func runC08(w *World, tier string) (bool, interface{}) {
 			return
 		}
 		cnt++
-		switch w.Tape.Choose(6, "junkKind") {
+		switch w.Tape.Choose(7, "junkKind") {
+		case 6:
+			// the opening proposal of this round once more, under an id that only LOOKS like
+			// this round's (white space around it, other letter case): that is another round,
+			// whatever happens to it must leave this one alone
+			var prop *storage.Message
+			for i := range w.Board.Msgs {
+				if pm := w.Board.Msgs[i]; pm.DkgRoundID == m.DkgRoundID && pm.Event == string(spf.EventInitProposal) && w.Board.Injected[pm.Offset] == nil {
+					prop = &w.Board.Msgs[i]
+					break
+				}
+			}
+			if prop == nil {
+				cnt--
+				return
+			}
+			x := *prop
+			x.DkgRoundID = []string{m.DkgRoundID + " ", " " + m.DkgRoundID, m.DkgRoundID + "\n", strings.ToUpper(m.DkgRoundID), "\t" + m.DkgRoundID + " "}[w.Tape.Choose(5, "lookAlikeId")]
+			if x.DkgRoundID == m.DkgRoundID {
+				x.DkgRoundID = m.DkgRoundID + " "
+			}
+			lookAlike[x.DkgRoundID] = true
+			w.Board.InjectMsg(x, &Inject{Kind: "junk-proposal-under-a-look-alike-round-id"})
+			w.Stats.Fault("junk")
+			w.Stats.Fault("proposal-under-a-look-alike-round-id")
 		case 5:
 			// a reinitialisation message that is refused (no round id; half of the time
 			// with this round's log embedded), directly followed by an unauthenticated
